@@ -39,6 +39,15 @@ impl CacheCfg {
     fn label(&self) -> String {
         format!("cache policy={} max_size={} ttl={:?} shared_store={} keys={}", pname(self.policy), self.max_size, self.ttl, self.shared, self.keys)
     }
+    /// time quantum of the wait operation (ms): 10 ms for the millisecond-range TTLs; half the
+    /// TTL for the seconds-range one (1.5 s: ages of 0.75 s, 1.5 s, 2.25 s, 3 s ... - whole
+    /// seconds and sub-second parts on both sides of the TTL's own)
+    fn q(&self) -> u64 {
+        match self.ttl {
+            Some(t) if t >= 1000 => t / 2,
+            _ => Q,
+        }
+    }
     /// two service handles over one store: clones of one service (private store) or two
     /// services produced by one SharedCacheLayer
     fn build(&self, inner: trv_core::inner::Shared) -> (Svc, Svc) {
@@ -265,7 +274,7 @@ impl C10 {
         }
         if let Some(t) = self.cfg.ttl {
             v.push(Op::Tick);
-            if t > Q {
+            if t > self.cfg.q() {
                 v.push(Op::LongWait);
             }
         }
@@ -276,7 +285,7 @@ impl C10 {
 fn op_name(o: &Op) -> String {
     match o {
         Op::Get { key, ok, svc } => format!("get_{}_inner_{}_via_{}", (b'A' + key) as char, if *ok { "ok" } else { "err" }, if *svc == 0 { "svc1" } else { "svc2" }),
-        Op::Tick => format!("wait_{Q}ms"),
+        Op::Tick => "wait_one_quantum".to_string(),
         Op::LongWait => "wait_until_all_expired".to_string(),
         Op::Staggered { key } => format!("two_overlapping_gets_of_{}_with_a_lookup_between_their_stores", (b'A' + key) as char),
     }
@@ -296,7 +305,7 @@ impl SeqScenario for C10 {
         let cfg = &self.cfg;
         let site = pname(cfg.policy);
         let alpha = self.alphabet();
-        let mut w = World::new(0, Q, Mode::Script, 1);
+        let mut w = World::new(0, cfg.q(), Mode::Script, 1);
         let (mut s1, mut s2) = cfg.build(w.inner.clone());
         let mut cands = vec![Model { entries: vec![], clock: 0, expiries: 0, evictions: 0, overwrites: 0, expired_keys: 0 }];
         let mut viols = vec![];
@@ -309,13 +318,13 @@ impl SeqScenario for C10 {
             let last = step + 1 == hist.len();
             match op {
                 Op::Tick => {
-                    w.advance(Q);
+                    w.advance(cfg.q());
                     if last {
                         outcome = "tick".into();
                     }
                 }
                 Op::LongWait => {
-                    w.advance(cfg.ttl.unwrap_or(0) + Q);
+                    w.advance(cfg.ttl.unwrap_or(0) + cfg.q());
                     if last {
                         outcome = "long_wait".into();
                     }
@@ -742,9 +751,12 @@ fn grid(tier: Tier) -> Vec<CacheCfg> {
     let mut v = vec![];
     for policy in [EvictionPolicy::Lru, EvictionPolicy::Lfu, EvictionPolicy::Fifo] {
         for max_size in [1usize, 2] {
-            for ttl in [None, Some(20), Some(50)] {
+            for ttl in [None, Some(20), Some(50), Some(1500)] {
                 for shared in [false, true] {
                     if tier == Tier::Quick && shared && ttl == Some(50) {
+                        continue;
+                    }
+                    if ttl == Some(1500) && (shared || (tier == Tier::Quick && max_size == 2)) {
                         continue;
                     }
                     v.push(CacheCfg { policy, max_size, ttl, shared, keys: 3 });
